@@ -61,6 +61,8 @@ def poly(x, j):
     acc = type(x[0]).from_re(0.5 * j)
     for i in range(n):
         acc = acc + (x[i] * x[i] * x[(i + 1) % n]) * cji(j, i)
+    if n >= 2:
+        acc = acc + x[0] / (x[1] * x[1] + 3.0)
     if n > 0:
         acc = acc + x[j % n] * (2.0 + j)
     return acc
@@ -71,6 +73,8 @@ def poly2(x, y):
     for i in range(len(x)):
         for k in range(len(y)):
             acc = acc + (x[i] * y[k] * y[k]) * cji(i, k)
+    if len(x) and len(y):
+        acc = acc + x[0] / (y[0] * y[0] + 3.0)
     for i in range(len(x)):
         acc = acc + x[i] * (2.0 + i)
     return acc
